@@ -7,11 +7,13 @@ import (
 	"encoding/json"
 	"errors"
 	"fmt"
+	"log/slog"
 	"os"
 	"path/filepath"
 	"sync"
 	"time"
 
+	"github.com/high-moctane/mocrelay"
 	"github.com/high-moctane/mocrelay/handler/sqlite"
 	sqlite3 "github.com/mattn/go-sqlite3"
 	"verif/harness/common"
@@ -201,7 +203,12 @@ type qres struct {
 }
 
 type reopenStep struct {
-	Re  bool            `json:"re"`
+	Re bool `json:"re"`
+	// Via = "handler": the batch is not handed to insertEvents directly: a SQLiteHandler (bulk size 50, no timer)
+	// is created on the database, one session submits the events and gets its OKs, the session ends and the
+	// handler's context is cancelled: what the handler has acknowledged must be in the database when it has shut
+	// down.  A sentinel event (appended to B, so the model sees it too) tells when the final insertion is done.
+	Via string          `json:"via,omitempty"`
 	B   []common.JEvent `json:"b"`
 	Got []qres          `json:"got"`
 	Ref []qres          `json:"ref"`
@@ -407,7 +414,18 @@ func c14RunReopen(c *c14Case) {
 			}
 			c.Seeds = append(c.Seeds, seed)
 		}
-		if err := sqlite.VerifInsertEvents(ctx, db, seed, toEvents(st.B)); err != nil {
+		if st.Via == "handler" {
+			sid := fmt.Sprintf("%064x", 0xfeed0000+i)
+			if n := len(st.B); n == 0 || st.B[n-1].ID != sid {
+				st.B = append(st.B, common.JEvent{ID: sid, PK: c14SentinelPK, TS: 0, Kind: 1, Tags: [][]string{},
+					Sig: fmt.Sprintf("%0128x", 1)})
+			}
+			if msg := c14ViaHandler(ctx, db, seed, st.B, sid); msg != "" {
+				c.Panic = msg
+				db.Close()
+				return
+			}
+		} else if err := sqlite.VerifInsertEvents(ctx, db, seed, toEvents(st.B)); err != nil {
 			c.Panic = "insertEvents failed: " + err.Error()
 			db.Close()
 			return
@@ -421,6 +439,66 @@ func c14RunReopen(c *c14Case) {
 		st.Ref = answers(ctx, ref, rseed, c.Qs)
 	}
 	db.Close()
+}
+
+var c14SentinelPK = fmt.Sprintf("%064x", 0xee)
+
+// c14ViaHandler: one lifetime of a SQLiteHandler on db.  Returns "" or what went wrong on the harness's side of
+// the protocol (an OK that does not come, a session that does not end).  That the events are stored is not
+// checked here: the answers of the database are compared with the reference afterwards.
+func c14ViaHandler(ctx context.Context, db *sql.DB, seed uint32, b []common.JEvent, sentinel string) string {
+	hctx, hcancel := context.WithCancel(ctx)
+	defer hcancel()
+	hopt := &sqlite.SQLiteHandlerOption{EventBulkInsertNum: 50, EventBulkInsertDur: time.Hour, MaxLimit: sqlite.NoLimit}
+	if os.Getenv("C14_LOG") != "" {
+		hopt.Logger = slog.New(slog.NewTextHandler(os.Stderr, nil))
+	}
+	h, err := sqlite.NewSQLiteHandler(hctx, db, hopt)
+	if err != nil {
+		return "NewSQLiteHandler: " + err.Error()
+	}
+	sctx, scancel := context.WithCancel(ctx)
+	defer scancel()
+	recv := make(chan mocrelay.ClientMsg)
+	send := make(chan mocrelay.ServerMsg, 2*len(b)+4)
+	done := make(chan struct{})
+	go func() {
+		defer close(done)
+		defer func() { recover() }()
+		h.ServeNostr(sctx, send, recv)
+	}()
+	for _, e := range b {
+		select {
+		case recv <- &mocrelay.ClientEventMsg{Event: e.ToEvent()}:
+		case <-time.After(3 * time.Second):
+			return "the handler's session does not take an EVENT"
+		}
+		select {
+		case m := <-send:
+			if ok, is := m.(*mocrelay.ServerOKMsg); !is || !ok.Accepted {
+				return fmt.Sprintf("EVENT %s was not acknowledged with an accepting OK", e.ID)
+			}
+		case <-time.After(3 * time.Second):
+			return "no OK for an EVENT"
+		}
+	}
+	scancel()
+	select {
+	case <-done:
+	case <-time.After(3 * time.Second):
+		return "the handler's session does not end"
+	}
+	hcancel()
+	// the final insertion runs after the cancellation (the handler gives it 3 s)
+	deadline := time.Now().Add(3500 * time.Millisecond)
+	for time.Now().Before(deadline) {
+		evs, err := sqlite.VerifQueryEvent(ctx, db, seed, []*mocrelay.ReqFilter{{IDs: []string{sentinel}}}, sqlite.NoLimit)
+		if err == nil && len(evs) == 1 {
+			return ""
+		}
+		time.Sleep(2 * time.Millisecond)
+	}
+	return "" // not stored in time: the comparison with the reference shows it
 }
 
 func c14Run(c *c14Case) {
@@ -546,7 +624,11 @@ func c14Gen(r *common.Rand, idx int) c14Case {
 		}
 		n := 1 + r.Intn(6)
 		for i := 0; i < n; i++ {
-			c.Steps = append(c.Steps, reopenStep{Re: i > 0 && r.Chance(60), B: draw(r.Intn(5))})
+			st := reopenStep{Re: i > 0 && r.Chance(60), B: draw(r.Intn(5))}
+			if r.Chance(25) {
+				st.Via = "handler"
+			}
+			c.Steps = append(c.Steps, st)
 		}
 	}
 	return c
